@@ -51,6 +51,7 @@ package io
 //@   ensures result == nil ==> this.available == 0 && this.obs.plain == old(this.obs.plain) + old(this.available)  #all-pending-emitted
 //@   ensures result == nil ==> this.buffersOK()
 //@   ensures result == nil ==> this.blockID != 0 - 1 && old(this.blockID) != 0 - 1                                 #success-means-not-cancelled
+//@   ensures result == nil && !this.headless ==> this.initialized == 1                                             #header-written-even-if-empty
 //@   ensures this.obs.wbits >= old(this.obs.wbits)                                                                 #bits-monotone
 //@   ensures this.closed == old(this.closed) && this.closing == old(this.closing) && this.finalized == old(this.finalized)
 //@   ensures old(this.obs.ofailed) ==> this.obs.ofailed
@@ -114,6 +115,7 @@ package io
 //@   ensures result == nil && old(this.closed) == 0 ==> this.obs.oclosed && this.available == 0 && this.obs.plain == old(this.obs.plain) + old(this.available)     #success-means-complete
 //@   ensures result == nil && old(this.closed) == 0 && old(this.finalized) == 0 ==> this.obs.wbits >= old(this.obs.wbits) + 8 && this.obs.tapeV[len(this.obs.tapeV) - 2] == 0 && this.obs.tapeW[len(this.obs.tapeW) - 2] == 5 && this.obs.tapeV[len(this.obs.tapeV) - 1] == 0 && this.obs.tapeW[len(this.obs.tapeW) - 1] == 3      #end-marker-last
 //@   ensures result != nil ==> this.closed == 0                                                                              #retry-possible
+//@   ensures result == nil && old(this.closed) == 0 && old(this.finalized) == 0 && !this.headless ==> this.initialized == 1         #header-written-even-if-empty
 //@   ensures this.repW()
 //@   ensures old(this.obs.ofailed) ==> this.obs.ofailed
 //@   panics this.obs.ofailed || old(this.obs.oclosed)                                                                        #bitstream-may-panic
